@@ -20,13 +20,56 @@ def k_batch(tier):
     ]
 
 
+H = "harness.h_submit"
+_HO = dict(opts=dict(path_seconds=0), cvc5=False)
+
+
+def h_submit(tier):
+    q = [
+        _ob("H-submit/N3", H, "h_submit", dict(shapes=["chain3", "fork3", "join3", "mid3"], bss=[1, 2], maxns=[None, 1]), **_HO),
+        _ob("H-submit/time", H, "h_submit", dict(shapes=["mid3", "chain3"], bss=[1], maxns=[None, 1], time_based=True,
+                                                  fails=False), **_HO),
+        _ob("H-submit/G2", H, "h_submit", dict(shapes=["chain3"], bss=[1, 2], maxns=[None], G=2, fails=False), **_HO),
+        _ob("H-submit/local", H, "h_submit", dict(shapes=["chain3", "join3", "fork3"], bss=[3], maxns=[None], local=True,
+                                                   procs=2), **_HO),
+    ]
+    if tier == "quick":
+        return q
+    return q + [
+        _ob("H-submit/N3-wide", H, "h_submit", dict(shapes=["chain3", "indep3", "fork3", "join3", "rchain3", "mid3"],
+                                                     bss=[1, 2, 3], maxns=[None, 1, 2], tas=[True, False]), **_HO),
+        _ob("H-submit/G2-wide", H, "h_submit", dict(shapes=["indep3", "chain3", "join3"], bss=[1, 2], maxns=[None, 1], G=2,
+                                                     fails=False), **_HO),
+        _ob("H-submit/N4", H, "h_submit", dict(shapes=["diamond4", "chain4", "two_chains4"], bss=[2], maxns=[None, 1],
+                                                cancel_flags=True), **_HO),
+    ]
+
+
+def h_dry(tier):
+    return [_ob("H-submit/dry-run", H, "h_submit", dict(shapes=["chain3", "indep2", "join3"], bss=[1, 3], maxns=[None, 1],
+                                                        dry_run=True, fails=False), **_HO)]
+
+
+def h_lost(tier):
+    q = [_ob("H-submit/lost", H, "h_submit", dict(shapes=["chain3", "fork3"], bss=[1, 2], maxns=[None, 1], lost=True,
+                                                  fails=False), **_HO)]
+    if tier == "quick":
+        return q
+    return q + [_ob("H-submit/lost-wide", H, "h_submit", dict(shapes=["chain3", "fork3", "join3", "cycle2p1"], bss=[1, 2],
+                                                             maxns=[None, 1], lost=True, fails=True), **_HO)]
+
+
 def obligations(prop, tier):
     table = {
-        "C01": k_batch,
-        "C02": k_batch,
-        "C05": k_batch,
-        "C06": k_batch,
-        "C07": k_batch,
+        "C01": lambda t: k_batch(t) + h_submit(t),
+        "C02": lambda t: k_batch(t) + h_submit(t),
+        "C03": h_submit,
+        "C04": h_submit,
+        "C05": lambda t: k_batch(t) + h_submit(t),
+        "C06": lambda t: k_batch(t) + h_submit(t),
+        "C07": lambda t: k_batch(t) + h_submit(t) + h_dry(t),
+        "C09": h_submit,
+        "C12": h_lost,
     }
     f = table.get(prop)
     return f(tier) if f else []
